@@ -64,19 +64,29 @@ func doLiveness(c *kit.Ctx, x lvCase) {
 	if x.Pool != "nolabel" {
 		nc.Labels[v1.NodePoolLabelKey] = "pool"
 	}
-	if x.Pool == "healthy" || x.Pool == "willpatch" || x.Pool == "notowner" {
+	if x.Pool == "healthy" || x.Pool == "willpatch" || x.Pool == "notowner" || x.Pool == "notowner-kind" || x.Pool == "alreadyfalse" {
 		np := &v1.NodePool{ObjectMeta: metav1.ObjectMeta{Name: "pool", UID: types.UID("pool-uid")}}
 		np.Spec.Template.Spec.NodeClassRef = classRef(true)
-		w.add(np)
-		uid := np.UID
-		if x.Pool == "notowner" {
-			uid = "someone-else"
+		if x.Pool == "alreadyfalse" {
+			// the window is about to turn unhealthy but the condition is False already: no Patch is issued
+			np.Status.Conditions = []status.Condition{cond(v1.ConditionTypeNodeRegistrationHealthy, metav1.ConditionFalse, baseTime())}
 		}
-		nc.OwnerReferences = []metav1.OwnerReference{{APIVersion: object.GVK(np).GroupVersion().String(), Kind: object.GVK(np).Kind, Name: np.Name, UID: uid}}
-		if x.Pool == "willpatch" {
+		w.add(np)
+		uid, kind := np.UID, object.GVK(np).Kind
+		switch x.Pool {
+		case "notowner":
+			uid = "someone-else"
+		case "notowner-kind":
+			kind = "Deployment" // same UID, other kind
+		}
+		nc.OwnerReferences = []metav1.OwnerReference{{APIVersion: object.GVK(np).GroupVersion().String(), Kind: kind, Name: np.Name, UID: uid}}
+		if x.Pool == "willpatch" || x.Pool == "alreadyfalse" {
 			state.Update(np.UID, false) // one earlier failure: the next one makes the window unhealthy
 		}
 	}
+	c.Count("liveness:pool-setup=" + x.Pool)
+	d := decorFor(c)
+	d.claim(nc)
 	// conditions: explicit ones first; the rest is initialised by StatusConditions() exactly as the lifecycle
 	// controller's earlier sub-reconcilers do (operatorpkg stamps a new dependent condition with the object's
 	// creation time)
@@ -188,7 +198,7 @@ func runLiveness(c *kit.Ctx) {
 					for _, d := range deltas {
 						rr := c.Rand.Fork()
 						x := lvCase{Launched: l, Registered: r, Gap: g, Anchor: anchor, Delta: d,
-							Pool:      kit.Pick(rr, []string{"nolabel", "missing", "healthy", "healthy", "willpatch", "willpatch", "notowner"}),
+							Pool:      kit.Pick(rr, []string{"nolabel", "missing", "healthy", "healthy", "willpatch", "willpatch", "notowner", "notowner-kind", "alreadyfalse"}),
 							Finalizer: rr.Chance(2, 3), Present: !rr.Chance(1, 8)}
 						if rr.Chance(1, 6) {
 							x.GetF = kit.Pick(rr, []string{"err", "conflict", "nf"})
@@ -221,7 +231,10 @@ func runLiveness(c *kit.Ctx) {
 		settings = settings[:3]
 	}
 	for _, s := range settings {
-		for _, pool := range []string{"nolabel", "missing", "healthy", "willpatch", "notowner"} {
+		for _, pool := range []string{"nolabel", "missing", "healthy", "willpatch", "notowner", "notowner-kind", "alreadyfalse"} {
+			if (pool == "notowner-kind" || pool == "alreadyfalse") && !c.Thorough() && s.anchor != "reg" {
+				continue
+			}
 			for _, gf := range []string{"", "err", "conflict", "nf"} {
 				pfs := []string{""}
 				if pool == "willpatch" {
@@ -230,7 +243,7 @@ func runLiveness(c *kit.Ctx) {
 				for _, pf := range pfs {
 					for _, df := range []string{"", "err", "nf"} {
 						for _, fin := range []bool{true, false} {
-							if !c.Thorough() && df == "nf" && fin {
+							if !c.Thorough() && (df == "nf" && fin || df == "err" && !fin || gf != "" && df != "" && !fin) {
 								continue
 							}
 							doLiveness(c, lvCase{Launched: s.l, Registered: s.r, Gap: s.gap, Anchor: s.anchor, Delta: 0,
@@ -269,7 +282,7 @@ func runLiveness(c *kit.Ctx) {
 		x := lvCase{Launched: kit.Pick(r, []string{"True", "True", "False", "Unknown", "Unknown", "Init"}),
 			Registered: kit.Pick(r, []string{"True", "False", "Unknown", "Unknown", "Unknown", "Init"}),
 			Gap:        time.Duration(r.Range(-900, 900)) * time.Second, Anchor: kit.Pick(r, []string{"launch", "reg"}),
-			Pool:      kit.Pick(r, []string{"nolabel", "missing", "healthy", "willpatch", "willpatch", "notowner"}),
+			Pool:      kit.Pick(r, []string{"nolabel", "missing", "healthy", "willpatch", "willpatch", "notowner", "notowner-kind", "alreadyfalse"}),
 			Finalizer: r.Chance(2, 3), Present: !r.Chance(1, 8)}
 		switch r.Intn(3) {
 		case 0:
